@@ -531,6 +531,12 @@ int main(int argc, char **argv) {
       struct map *m = find_map(id);
       if (m) munmap((void *)m->addr, m->len);
       printf("ok\n");
+    } else if (!strcmp(cmd, "protect")) {
+      unsigned long a = 0, l = 0;
+      int prot = 0;
+      sscanf(line, "%*s %lx %lx %d", &a, &l, &prot);
+      if (mprotect((void *)a, l, prot) != 0) printf("err\n");
+      else printf("ok\n");
     } else if (!strcmp(cmd, "ping")) {
       printf("ok\n");
     }
